@@ -99,6 +99,8 @@ def run_tool(cmd, file, hashseed, tmp, timeout, extra=()):
 
 # ----------------------------------------------------------------------------------------------------------
 def load_known():
+    if os.environ.get("COMASIM_NO_KNOWN") == "1":      # used once, to produce the replay files kept under known_findings/
+        return []
     try:
         return json.load(open(os.path.join(HERE, "known_findings.json")))["findings"]
     except FileNotFoundError:
